@@ -1095,11 +1095,22 @@ class Model:
                 if len(call.args) >= 2:
                     tg = self.expand(self.origins_of(f, call.args[1]))
                 self.thread_targets.append((f, call, tg))
+                # Thread(target=f, args=(a, b), kwargs={...}): the arguments the new thread calls f with
+                targs = [kw.value for kw in call.keywords if kw.arg == "args"]
+                tkw = [kw.value for kw in call.keywords if kw.arg == "kwargs"]
                 for x in tg:
                     for t in self._funcs_of_origin(x):
                         if (t, "thread") not in self.call_edges[f]:
                             self.call_edges[f].add((t, "thread"))
                             changed = True
+                        elts = targs[0].elts if targs and isinstance(targs[0], (ast.Tuple, ast.List)) else []
+                        kws = []
+                        if tkw and isinstance(tkw[0], ast.Dict):
+                            kws = [ast.keyword(arg=k_.value, value=v_) for k_, v_ in zip(tkw[0].keys, tkw[0].values)
+                                   if isinstance(k_, ast.Constant) and isinstance(k_.value, str)]
+                        if elts or kws:
+                            fake = ast.Call(func=call.func, args=list(elts), keywords=kws)
+                            changed |= self._bind_args(f, fake, t, x[0] in ("bound",))
             elif o[1] == "functools.partial" and call.args:
                 # partial(X, a, b): bind a, b to X's leading parameters
                 for x in self.expand(self.origins_of(f, call.args[0])):
